@@ -117,10 +117,23 @@ def gen_fill(rng):
     return lines
 
 
+def gen_neg(rng):
+    """Negative constants as direct operands of operations that are not expanded: byte fields (SETLO, relative
+    branches), data cells, increments of the data counter (seed C04f: the preprocessor substituted their unsigned reading)."""
+    a, b = rng.choice([-1, -2, -3, -100, -128]), rng.choice([-1, -2, -5])
+    lines = ["CONSTANT(neg, %d)" % a, "CONSTANT(back, %d)" % b, "CONSTANT(big, %d)" % rng.choice([-32768, -300, 65535]),
+             "DLABEL(cell)", "INTEGER(neg)", "INTEGER(big)",
+             "SETLO(R1, neg)", "SET(R2, big)", "INC(R3, 1)", "NOP()", "NOP()", "NOP()", "NOP()", "NOP()",
+             "%sR(back)" % rng.choice(BRANCHES), "SETLO(R4, back)", "SETRF(R5, neg)", "HALT()"]
+    return lines
+
+
 def gen_valid(rng, n_code=None):
     """A mostly valid program as a list of source lines."""
     if n_code is None and rng.random() < 0.08:
         return gen_far(rng)
+    if n_code is None and rng.random() < 0.05:
+        return gen_neg(rng)
     if n_code is None and rng.random() < 0.05:
         return gen_fill(rng)
     if n_code is None and rng.random() < 0.06:
@@ -202,7 +215,14 @@ def gen_valid(rng, n_code=None):
         elif k < 0.95:
             code.append(rng.choice(['print_reg(%s)' % r(rng), 'print("hi")', 'println("a b")', '__eval("1")']))
         elif k < 0.98:
-            code.append("OPCODE(%s)" % rng.choice(["0", "0x1234", "0xA123", "0x2200", "0x2300", "0x3D61", "0xFFFF", "65535"]))
+            if rng.random() < 0.35:
+                # the word behind a named constant (seed C08e: SWI/RTI words so disguised were let through in run mode)
+                nm = "w%d" % len(lines)
+                lines.append("CONSTANT(%s, %s)" % (nm, rng.choice(["0x2205", "0x2300", "0x220f", "0xA123", "0x5f0e", "0x7123"])))
+                code.append("OPCODE(%s)" % nm)
+            else:
+                code.append("OPCODE(%s)" % rng.choice(["0", "0x1234", "0xA123", "0x2200", "0x2300", "0x3D61", "0xFFFF", "65535",
+                                                        "0x5f0e", "0x7123"]))
         else:
             code.append(rng.choice(["SWI(3)", "RTI()"]))
     for p in pending:
